@@ -4,7 +4,7 @@
    vm_compute (the Core side on the model's translation). *)
 From Coq Require Import List ZArith NArith String Bool.
 From SCC Require Import Lang.FunSyn Lang.CoreSyn Sem.AxSem Sem.CoreSem Sem.FunSem Model.Fun2Core
-     Proof.Fun2CoreProof Proof.Fun2CoreInv Proof.Fun2CoreRel Proof.Fun2CoreProg.
+     Proof.Fun2CoreProof Proof.Fun2CoreMain Proof.Fun2CoreInv Proof.Fun2CoreRel Proof.Fun2CoreProg.
 Import ListNotations.
 Local Open Scope string_scope.
 Local Open Scope Z_scope.
@@ -169,5 +169,19 @@ Proof.
   exact (fun2core_correct_fragment_lemma capture_witness _ args n o (proj1 capture_witness_fixed_lemma)
            (proj1 (proj2 guard_accepts_capture_witness)) (proj1 guard_accepts_capture_witness) Hr Hf).
 Qed.
-Example guard_rejects_call_main_witness : prog_guard call_main_witness = false.
-Proof. vm_compute. reflexivity. Qed.
+(* the call-to-main witness (former finding, repaired in /repo by <commitmain>) is INSIDE the guard too, and by the
+   THEOREM every final source run of it is reproduced by the Core machine on its translation *)
+Example guard_accepts_call_main_witness :
+  prog_guard call_main_witness = true /\ NoDup (map fdname (fcpdefs call_main_witness)) /\
+  calls_main_prog call_main_witness = true.
+Proof.
+  split; [vm_compute; reflexivity|]. split; [repeat constructor; simpl; intuition discriminate | vm_compute; reflexivity].
+Qed.
+Lemma call_main_witness_simulated : forall (args : list Z) (n : nat) (o : obs),
+  run_fun n call_main_witness args = o -> final o ->
+  exists m, run_core m (compiled_or_empty call_main_witness) args = o.
+Proof.
+  intros args n o Hr Hf.
+  exact (fun2core_correct_fragment_lemma call_main_witness _ args n o (proj1 call_main_witness_fixed_lemma)
+           (proj1 (proj2 guard_accepts_call_main_witness)) (proj1 guard_accepts_call_main_witness) Hr Hf).
+Qed.
